@@ -43,10 +43,11 @@ const (
 	kRandom
 	kNewSA
 	kSharedDecode
+	kSharedUnprotect
 	nKinds
 )
 
-var kindNames = []string{"encode", "decode", "protect", "unprotect", "ikekeys", "childkeys", "dh", "mapping", "eap", "random", "newsa", "shareddecode"}
+var kindNames = []string{"encode", "decode", "protect", "unprotect", "ikekeys", "childkeys", "dh", "mapping", "eap", "random", "newsa", "shareddecode", "sharedunprotect"}
 
 // per-goroutine state: objects no other goroutine touches
 type slot struct {
@@ -63,6 +64,20 @@ func newSlot(id int, seed uint64) *slot {
 	s.key, _ = libsa.NewKey(s.raw)
 	s.peer, _ = libsa.NewKey(s.raw)
 	return s
+}
+
+// inputs shared read-only by all goroutines of one configuration
+type sharedIn struct {
+	plain    []byte
+	prot     []byte
+	protInit bool
+	raw      libsa.Raw
+	eapPkt   []byte
+	kaut     []byte
+}
+
+func (s *sharedIn) snapshot() []byte {
+	return append(append(append([]byte{}, s.plain...), s.prot...), s.eapPkt...)
 }
 
 type opRec struct {
@@ -83,7 +98,8 @@ func dg(parts ...interface{}) string {
 // runOp executes one operation; deterministic kinds return a digest that must
 // be identical to the sequential pre-run, randomised kinds return "ok" or a
 // contract failure text.
-func runOp(kind int, r *core.Rng, s *slot, shared []byte) (digest string, rnd []byte) {
+func runOp(kind int, r *core.Rng, s *slot, sh *sharedIn) (digest string, rnd []byte) {
+	shared := sh.plain
 	defer func() {
 		if x := recover(); x != nil {
 			digest = fmt.Sprintf("PANIC: %v", x)
@@ -206,6 +222,26 @@ func runOp(kind int, r *core.Rng, s *slot, shared []byte) (digest string, rnd []
 			return fmt.Sprint("CONTRACT NewIKESAKey: ", err), nil
 		}
 		return "ok", pub
+	case kSharedUnprotect:
+		// one protected datagram and one EAP-AKA' packet, shared read-only by all goroutines; each goroutine
+		// unprotects / verifies with its OWN key objects built from the same raw keys
+		key, err := libsa.NewKey(sh.raw)
+		if err != nil {
+			return "err", nil
+		}
+		d, err, _ := libUnprotect(sh.prot, r.Bool(), key, !sh.protInit)
+		if err != nil {
+			return "err", nil
+		}
+		e := new(eap.EAP)
+		if err := e.Unmarshal(sh.eapPkt); err != nil {
+			return "err", nil
+		}
+		mac, err := e.CalcEapAkaPrimeAtMAC(sh.kaut)
+		if err != nil {
+			return "err", nil
+		}
+		return dg(d.JSON(), mac), nil
 	case kSharedDecode:
 		// read-only sharing of one input slice between concurrent decoders
 		d, err, _ := libDecode(shared)
@@ -241,9 +277,22 @@ func c18Config(k *core.Case, G, procs, opsPerSlot int) {
 	defer runtime.GOMAXPROCS(old)
 	seed := k.R.U64()
 	// one shared, read-only input
-	sm := gen.Msg(core.NewRng(seed, 0x5a), gen.Opt{MaxPayloads: 5})
-	shared, _ := ref.EncodeMsg(sm, nil)
-	sharedCopy := append([]byte{}, shared...)
+	sr := core.NewRng(seed, 0x5a)
+	sm := gen.Msg(sr, gen.Opt{MaxPayloads: 5})
+	shared := &sharedIn{}
+	shared.plain, _ = ref.EncodeMsg(sm, nil)
+	shared.raw = libsa.RandomRaw(sr, ref.Suites[sr.Intn(9)])
+	shared.protInit = sr.Bool()
+	pm := gen.Msg(sr, gen.Opt{Protected: true, MaxPayloads: 3})
+	inner, first, _ := ref.EncodeChain(pm.Payloads, nil)
+	padn := (16 - (len(inner)+1)%16) % 16
+	shared.prot, _ = ref.ProtectRaw(pm, first, inner, shared.raw.Suite, shared.raw.Dir(shared.protInit), sr.Bytes(16), sr.Bytes(padn), nil)
+	// spare capacity behind the shared datagrams, as in a receive buffer
+	shared.prot = append(make([]byte, 0, len(shared.prot)+64), shared.prot...)
+	shared.plain = append(make([]byte, 0, len(shared.plain)+64), shared.plain...)
+	shared.kaut = sr.Bytes(32)
+	shared.eapPkt, _ = ref.EncodeEAP(&abs.EAP{Code: 1, ID: 7, Method: &abs.Method{Type: abs.MAkaPrime, AKA: gen.AKAWith(sr, 1, 127)}}, &ref.Opts{AKAOrder: true})
+	sharedCopy := shared.snapshot()
 
 	plan := make([][]int, G)
 	for g := 0; g < G; g++ {
@@ -251,7 +300,7 @@ func c18Config(k *core.Case, G, procs, opsPerSlot int) {
 		for i := 0; i < opsPerSlot; i++ {
 			kind := r.Intn(nKinds)
 			if kind == kNewSA && r.Chance(4, 5) { // two 2048-bit-exponent modexps: keep it rare
-				kind = r.Intn(nKinds - 2)
+				kind = r.Intn(kNewSA)
 			}
 			plan[g] = append(plan[g], kind)
 		}
@@ -291,7 +340,7 @@ func c18Config(k *core.Case, G, procs, opsPerSlot int) {
 	wg.Wait()
 	k.Eval(G * opsPerSlot)
 	w := M{"goroutines": G, "gomaxprocs": procs, "ops_per_goroutine": opsPerSlot, "seed": seed}
-	if !bytes.Equal(shared, sharedCopy) {
+	if !bytes.Equal(shared.snapshot(), sharedCopy) {
 		k.Violate("interference", "shared-read-only-input-modified", "", w)
 		return
 	}
